@@ -29,7 +29,7 @@ def ensure_sv():
     head = subprocess.check_output(["git", "-C", "/repo", "rev-parse", "HEAD"], text=True).strip()
     if not os.path.isdir(SV):
         sh(f"git -C /repo worktree add -q --detach {SV} {head}")
-    sh(f"git checkout -q --detach {head} && git checkout -q -- . && git clean -fdq -e target", cwd=SV)
+    sh(f"git checkout -q --detach {head} && git checkout -q -- . && git clean -fdq -e target -e OUT", cwd=SV)
     return head
 
 
@@ -59,12 +59,17 @@ def main():
             cmd = f"cargo test --offline --test {name}"
             os.remove(f"{SV}/tests/{name}.rs")
         else:
-            shutil.copy(f"{out}/{demo}", f"{SV}/{demo}")
+            os.makedirs(f"{SV}/OUT", exist_ok=True)
+            for f_ in os.listdir(out):      # demos may use companion files (cli/*.md ...)
+                src = f"{out}/{f_}"
+                if os.path.isdir(src):
+                    shutil.copytree(src, f"{SV}/OUT/{f_}", dirs_exist_ok=True)
+                else:
+                    shutil.copy(src, f"{SV}/OUT/{f_}")
             sh("cargo build --offline -q", cwd=SV)
-            code, o = sh(f"bash ./{demo} 2>&1 | tail -15; exit ${{PIPESTATUS[0]}}", cwd=SV)
-            code, o = sh(f"bash -c 'bash ./{demo} > /tmp/sv_demo.out 2>&1; echo EXIT=$?'; tail -15 /tmp/sv_demo.out", cwd=SV)
+            code, o = sh(f"bash -c 'SCRUT_BIN={SV}/target/debug/scrut bash OUT/{demo} > /tmp/sv_demo.out 2>&1; echo EXIT=$?'; tail -15 /tmp/sv_demo.out", cwd=SV)
             ok = "EXIT=0" in o
-            cmd = f"bash ./{demo}"
+            cmd = f"bash OUT/{demo}"
         meta["ran"].append({"what": label, "cmd": cmd, "passed": ok, "tail": o[-600:]})
         return ok
 
@@ -79,7 +84,7 @@ def main():
     suite_ok = "166 passed" in o or ("passed" in o and "failed" not in o.lower().replace("no-fail-fast", ""))
     meta["ran"].append({"what": "pinned suite with the change (must pass)", "cmd": "cargo nextest run --workspace --no-fail-fast --offline", "passed": suite_ok, "tail": o[-400:]})
     ok_mut = demo_run("demonstration with the change (must fail)")
-    sh("git checkout -q -- . && git clean -fdq -e target", cwd=SV)
+    sh("git checkout -q -- . && git clean -fdq -e target -e OUT", cwd=SV)
     confirmed = ok_clean and suite_ok and not ok_mut
     meta["confirmed"] = confirmed
     print(f"{pid}{var}: demo_clean_pass={ok_clean} suite_pass={suite_ok} demo_mut_fails={not ok_mut} => confirmed={confirmed}")
